@@ -146,7 +146,9 @@ fn main() {
     };
 
     clock::assert_owned();
-    util::silence_panics();
+    if std::env::var("VCHECK_LOUD").is_err() {
+        util::silence_panics();
+    }
     console::set_colors_enabled(false);
     console::set_colors_enabled_stderr(false);
 
